@@ -209,7 +209,7 @@ def run_case(ctx, rep, case, base_dir, model_ok):
                 put_fault = {"left": 1 if case.get("hint_put_fault") else 0}
 
                 def req_hook(phase, op, key, kw, _prev=prev_hook):
-                    if phase == "before" and S.actor() is not None:
+                    if phase == "before" and S.actor() is not None and op != "put-body-sent":
                         S.gate(f"s3.{op}")
                         if put_fault["left"] and op == "put" and S.actor() == 1 and str(key).endswith("metadata.version-hint.text"):
                             put_fault["left"] -= 1      # the conditional pointer PUT times out in flight (it did not take effect)
